@@ -131,7 +131,8 @@ def cases(draw):
         params = G.find_cells(ctx.base, n)[1].params
         key = [draw(st.sampled_from([0, 1, 2, "k", -3])) for _ in params]
         extra.append(["set_value", gen._jsid(sid), n, key, draw(st.sampled_from([5, "text", 2.5, -1]))])
-    return {"ops": ops + extra, "zip": use_zip, "chain": chain}
+    rewrite = draw(st.sampled_from([None, None, {"backup": True}, {"backup": False}]))
+    return {"ops": ops + extra, "zip": use_zip, "chain": chain, "rewrite": rewrite}
 
 
 def strategy(tier):
@@ -253,6 +254,43 @@ def _run(case, out, root):
                         gen_i, q, a, b))
             return out.fail("round-trip-value", "different batteries")
         cur = new
+    rw = case.get("rewrite")
+    if rw is not None:
+        # the model shrinks (all assigned values cleared) and is saved again ONTO generation 0, with or without
+        # backups: what is read back is the current model, and the place holds exactly the files of a fresh save
+        real.m.clear_all()
+        desc = model_desc(real.m)
+        path0 = os.path.join(root, "m0" + (".zip" if case.get("zip") else ""))
+        fresh = os.path.join(root, "fresh" + (".zip" if case.get("zip") else ""))
+        try:
+            if case.get("zip"):
+                real.m.zip(path0, backup=rw["backup"])
+                real.m.zip(fresh)
+            else:
+                real.m.write(path0, backup=rw["backup"])
+                real.m.write(fresh)
+        except Exception as exc:
+            return out.fail("rewrite-rejected", "saving the shrunk model again onto generation 0 (backup=%r) raised %r" % (
+                rw["backup"], exc))
+        if case.get("zip"):
+            with zipfile.ZipFile(path0) as z0, zipfile.ZipFile(fresh) as z1:
+                l0 = {n for n in z0.namelist() if not n.endswith("/")}
+                l1 = {n for n in z1.namelist() if not n.endswith("/")}
+        else:
+            l0, l1 = set(file_listing(path0)), set(file_listing(fresh))
+        if l0 != l1:
+            return out.fail("rewrite-listing", "after saving again onto an existing save (backup=%r) the place holds %r "
+                                               "besides / lacks %r compared with a fresh save" % (
+                                                   rw["backup"], sorted(l0 - l1), sorted(l1 - l0)))
+        try:
+            m3 = mx.read_model(path0, name="RW")
+        except Exception as exc:
+            return out.fail("read-rejected", "model saved again onto an existing save (backup=%r) cannot be read back: %r" % (
+                rw["backup"], exc))
+        r = diff(desc, model_desc(m3))
+        if r:
+            return out.fail("round-trip", "after saving again onto an existing save (backup=%r): %s" % (rw["backup"], r))
+        out.label("rewrite")
     kinds = constructs(case)
     out.nontrivial = len(kinds) >= 3
     for k in kinds:
